@@ -13,6 +13,7 @@ import (
 	"math/rand"
 	"net"
 	"sort"
+	"strings"
 	"sync"
 	"time"
 
@@ -34,12 +35,14 @@ func init() {
 	fw.Register(&fw.Prop{
 		ID: "C13",
 		Rule: "case = one run of the listener wrapper over a scripted listener: a mix of connection classes (A terminal route, B falls through, C non-terminal route then falls through " +
-			"[take / proxy_protocol / tls], D fails matching [matcher error / timeout / buffer full]), PRF streams with random segmentation, an Accept consumer with scripted pacing " +
+			"[take / proxy_protocol / tls], D fails matching [matcher error / timeout / buffer full], L/M clients that send most of their stream long after the matching timeout; one run in six uses a route list " +
+			"whose matchers all say no without reading), PRF streams with random segmentation, an Accept consumer with scripted pacing " +
 			"(immediate / slower than arrival / stops), and a scripted close instant. oracle: each B/C connection is returned by Accept exactly once and reads the client's stream from the first " +
-			"unconsumed byte (TLS: plaintext + ConnectionState); A/D are never returned and are closed; a connection pending at Close is either returned once or closed, never both/neither; " +
+			"unconsumed byte (TLS: plaintext + ConnectionState) with no read deadline left armed by matching; A/D are never returned and are closed; a connection pending at Close is either returned once or closed, never both/neither; " +
 			"after Close Accept returns net.ErrClosed and no goroutine remains in layer4.(*listener). non-trivial = >=1 fall-through connection accepted; distinct = hash(order signature of arrive/accept/close events)",
 		Assumptions: []string{
 			"scripted transport; the consumer reads each accepted connection to EOF on its own goroutine",
+			"matching timeouts are 150-350 ms: a fall-through connection that layer4 dropped at its deadline while the scheduler canary shows stalls above an eighth of the timeout is counted as inconclusive (starved client), not as lost",
 			"poison-on-release hook (VERIF_POISON=1) and yield points at the hand-off widen the windows; at GOMAXPROCS=1 the pool reuses a released buffer immediately",
 		},
 		MinEvals: 100,
@@ -60,6 +63,19 @@ func init() {
 		Run:    run,
 		Replay: replay,
 	})
+}
+
+// noReadRoutesJSON is a route list whose matchers all decide (no) without looking at the stream: nothing is
+// prefetched and every connection falls through at once.
+func noReadRoutesJSON(matchTimeoutMs int) string {
+	f := false
+	rs := []any{
+		map[string]any{"match": []any{map[string]any{"verif_m2": map[string]any{"id": "N1", "need": 0, "const": f}}},
+			"handle": []any{map[string]any{"handler": "verif_sink", "name": "sinkA"}}},
+		map[string]any{"match": []any{map[string]any{"verif_m3": map[string]any{"id": "N2", "need": 0, "const": f}}, map[string]any{"verif_m2": map[string]any{"id": "N3", "need": 0, "const": f}}},
+			"handle": []any{map[string]any{"handler": "verif_sink", "name": "sinkE"}}},
+	}
+	return fmt.Sprintf(`{"routes":%s,"matching_timeout":"%dms"}`, drive.J(rs), matchTimeoutMs)
 }
 
 func routesJSON(matchTimeoutMs int, withTLS bool) string {
@@ -88,7 +104,7 @@ func routesJSON(matchTimeoutMs int, withTLS bool) string {
 
 type connPlan struct {
 	ID     string
-	Class  byte // A B C P E U F(lood) T(ls)
+	Class  byte // A B C P E U F(lood) T(ls) L(ate) N(o-read fall-through) M(no-read, late)
 	Stream []byte
 	Wire   []byte
 	Expect []byte // what the accepted connection must read (nil for non-delivered classes)
@@ -138,7 +154,12 @@ func oneRun(c *fw.Ctx, cert *tlsutil.Cert, index, nConns int) {
 	r := fw.Rand(c.Seed, "c13", index)
 	timeoutMs := 150 + r.Intn(200)
 	ctx := caddy.ActiveContext()
-	lw, err := hmods.LoadWrapper(ctx, routesJSON(timeoutMs, true))
+	noRead := fw.Rand(c.Seed, "c13flavour", index).Intn(6) == 0
+	cfg := routesJSON(timeoutMs, true)
+	if noRead {
+		cfg = noReadRoutesJSON(timeoutMs)
+	}
+	lw, err := hmods.LoadWrapper(ctx, cfg)
 	if err != nil {
 		c.Violation("C13 config rejected", err.Error(), nil)
 		return
@@ -161,6 +182,9 @@ func oneRun(c *fw.Ctx, cert *tlsutil.Cert, index, nConns int) {
 		}
 		id := fmt.Sprintf("c13-%d-%d-%d", c.Shard, index, k)
 		s := oracle.Stream(streamDomain, uint64(fw.Mix(c.Seed, id)), n)
+		if noRead {
+			cl = "NNM"[r.Intn(3)] // N: plain fall-through, M: the same with a client that sends most of its stream late
+		}
 		p := &connPlan{ID: id, Class: cl, Stream: s}
 		// Streams are long enough for every matcher to decide (proxy_protocol needs 12 bytes), and the first
 		// byte that later routes will see is one that no later route matches.
@@ -190,6 +214,8 @@ func oneRun(c *fw.Ctx, cert *tlsutil.Cert, index, nConns int) {
 			p.Expect = s
 		case 'T':
 			p.Expect = s
+		case 'N', 'M':
+			p.Wire, p.Expect = s, s
 		}
 		p.Segs = drive.Segmentation(drive.SegClasses[r.Intn(len(drive.SegClasses))], len(p.Wire), rand.New(rand.NewSource(r.Int63())))
 		if len(p.Segs) > 400 {
@@ -257,6 +283,9 @@ func oneRun(c *fw.Ctx, cert *tlsutil.Cert, index, nConns int) {
 
 	// clients
 	var clients sync.WaitGroup
+	canary := oracle.StartCanary()
+	defer canary.Stop()
+	didSettle, unsettledNoisy := false, false
 	closeAt := nConns
 	switch closeMode {
 	case "midway":
@@ -286,6 +315,13 @@ func oneRun(c *fw.Ctx, cert *tlsutil.Cert, index, nConns int) {
 				_ = tc.CloseWrite()
 				return
 			}
+			if p.Class == 'M' {
+				_, _ = p.client.Write(p.Wire[:9])
+				time.Sleep(time.Duration(timeoutMs)*time.Millisecond + 250*time.Millisecond)
+				_, _ = p.client.Write(p.Wire[9:])
+				_ = p.client.CloseWrite()
+				return
+			}
 			if p.Class == 'L' {
 				_, _ = p.client.Write(p.Wire[:9])
 				time.Sleep(3 * time.Millisecond)
@@ -305,12 +341,19 @@ func oneRun(c *fw.Ctx, cert *tlsutil.Cert, index, nConns int) {
 	if closeMode == "after-all" {
 		// let everything settle: all fall-through connections accepted (unless the consumer stops)
 		clients.Wait()
-		deadline := time.Now().Add(time.Duration(timeoutMs)*time.Millisecond + 3*time.Second)
+		// A lost connection never settles, so the wait is generous (it only costs time when something is wrong):
+		// on a loaded machine matching plus hand-over of the last connections can take seconds.
+		deadline := time.Now().Add(time.Duration(timeoutMs)*time.Millisecond + 20*time.Second)
 		for time.Now().Before(deadline) {
 			if settled(plans[:injected], &mu, &acc, pace != "stops") {
+				didSettle = true
 				break
 			}
 			time.Sleep(2 * time.Millisecond)
+		}
+		if !didSettle && canary.MaxOversleep() > 2*time.Second {
+			c.Inconclusive("noisy scheduler: run did not settle")
+			unsettledNoisy = true
 		}
 	} else {
 		time.Sleep(time.Duration(r.Intn(3000)) * time.Microsecond)
@@ -405,7 +448,20 @@ func oneRun(c *fw.Ctx, cert *tlsutil.Cert, index, nConns int) {
 		case fall && n == 0:
 			// not delivered: legitimate only if the listener was closed while it was pending (or the client
 			// failed before handing over); then it must have been closed
-			if closeMode == "after-all" && pace != "stops" {
+			timedOut := false
+			for _, l := range p.server.Log() {
+				if l.Op == "read" && strings.Contains(l.Err, "timeout") {
+					timedOut = true
+				}
+			}
+			if timedOut && canary.MaxOversleep() > time.Duration(timeoutMs)*time.Millisecond/8 {
+				// layer4 gave up on this connection at its matching deadline (150-350 ms) and the scheduler canary
+				// shows that goroutines of this process were held up for a good part of that: the client was too
+				// slow on this machine, which is not the wrapper's doing
+				c.Inconclusive("noisy scheduler: matching timed out on a starved client")
+				continue
+			}
+			if closeMode == "after-all" && pace != "stops" && !unsettledNoisy {
 				report("never-delivered", "a fall-through connection was never returned by Accept although the consumer kept accepting and the listener stayed open until everything had settled", p)
 			} else if p.server.CloseCalls.Load() == 0 {
 				// give the drain a moment
@@ -430,6 +486,18 @@ func oneRun(c *fw.Ctx, cert *tlsutil.Cert, index, nConns int) {
 			continue
 		}
 		delivered++
+		// whatever deadline matching armed on the client connection must be gone when the connection is handed over
+		// (the consumer sets none): the last deadline layer4 set has to be "none"
+		var lastDL *vnet.CallLog
+		for _, l := range p.server.Log() {
+			if l.Op == "setreaddeadline" || l.Op == "setdeadline" {
+				l := l
+				lastDL = &l
+			}
+		}
+		if lastDL != nil && !lastDL.Value.IsZero() {
+			report(fmt.Sprintf("deadline-left-armed class %c", p.Class), "a connection was handed to the wrapped listener's consumer with the matching read deadline still armed (last deadline set on the client connection is not the zero time)", p)
+		}
 		if d := oracle.Diff(a.data, p.Expect); d != "" {
 			kind := oracle.DiffKind(a.data, p.Expect)
 			// a connection accepted around the close instant may have been closed by the drain as well
@@ -503,8 +571,8 @@ func settled(plans []*connPlan, mu *sync.Mutex, acc *[]*accepted, needAccept boo
 	mu.Unlock()
 	for _, p := range plans {
 		if p.Expect != nil {
-			if needAccept && !got[p.ID] {
-				return false
+			if needAccept && !got[p.ID] && p.server.CloseCalls.Load() == 0 {
+				return false // (a connection that layer4 closed will not be delivered any more: nothing to wait for)
 			}
 		} else if p.server.CloseCalls.Load() == 0 {
 			return false
